@@ -20,6 +20,7 @@ package bookkeeping
 //   - RewardsRateRefreshInterval == 0 is a misconfiguration (division by zero) and is never generated.
 
 import (
+	"encoding/json"
 	"fmt"
 	"io"
 	"math"
@@ -102,6 +103,16 @@ type c25Case struct {
 // State25 is the numeric part of a RewardsState (for witnesses).
 type State25 struct{ Level, Rate, Residue, RecalcRound uint64 }
 
+// c25Lazy is the Guard input; it is only rendered if the code under test panics.
+type c25Lazy struct {
+	p  *c25Proto
+	in c25Case
+}
+
+func (l c25Lazy) MarshalJSON() ([]byte, error) {
+	return json.Marshal(map[string]any{"protocol": l.p.Name, "params": l.p.key(), "case": l.in})
+}
+
 // c25Log wraps a real (discarding) logger and swallows the error/warning records NextRewardsState emits on
 // unrepresentable sums: logrus formatting with caller lookup costs tens of microseconds per record and
 // would dominate the run. Every other Logger method falls through to the real logger.
@@ -146,7 +157,7 @@ func (w *c25Worker) merge() {
 	}
 }
 
-func (w *c25Worker) fail(key string, p c25Proto, in c25Case, out RewardsState, msg string) {
+func (w *c25Worker) fail(key string, p *c25Proto, in c25Case, out RewardsState, msg string) {
 	w.c.Violation(key, map[string]any{"protocol": p.Name, "params": p.key(), "prev_state": fmt.Sprintf("%+v", in.State), "next_round": in.Round,
 		"pool_balance": in.Pool, "total_reward_units": in.Units,
 		"got": fmt.Sprintf("level=%d rate=%d residue=%d recalc=%d", out.RewardsLevel, out.RewardsRate, out.RewardsResidue, out.RewardsRecalculationRound), "message": msg})
@@ -154,10 +165,10 @@ func (w *c25Worker) fail(key string, p c25Proto, in c25Case, out RewardsState, m
 }
 
 // check runs NextRewardsState on one input and evaluates the property; it returns the successor state.
-func (w *c25Worker) check(p c25Proto, in c25Case) (res RewardsState, distributed *big.Int, effRate uint64, ok bool) {
+func (w *c25Worker) check(p *c25Proto, in c25Case) (res RewardsState, distributed *big.Int, effRate uint64, ok bool) {
 	s := RewardsState{RewardsLevel: in.State.Level, RewardsRate: in.State.Rate, RewardsResidue: in.State.Residue, RewardsRecalculationRound: basics.Round(in.State.RecalcRound)}
 	s.FeeSink[0], s.RewardsPool[0] = 1, 2
-	if w.c.Guard("NextRewardsState", map[string]any{"params": p.key(), "case": fmt.Sprintf("%+v", in)}, func() {
+	if w.c.Guard("NextRewardsState", c25Lazy{p, in}, func() {
 		res = s.NextRewardsState(basics.Round(in.Round), p.Params, basics.MicroAlgos{Raw: in.Pool}, in.Units, w.log)
 	}) {
 		w.stop.Store(w.c.Violations() > 20)
@@ -311,7 +322,7 @@ func TestVerifC25Grid(t *testing.T) {
 		}
 	}
 	c25Run(c, len(jobs), &stop, func(w *c25Worker, i int) {
-		p, u := jobs[i].p, jobs[i].u
+		p, u := &jobs[i].p, jobs[i].u
 		min, iv := p.Params.MinBalance, p.Params.RewardsRateRefreshInterval
 		residues := c25Dedup([]uint64{0, 1, u - 1, u, u + 1, 545_321_700, 1 << 63, math.MaxUint64})
 		rates := c25Dedup([]uint64{0, 1, u - 1, u, u + 1, 24_000_000, 1 << 63, math.MaxUint64 - 1, math.MaxUint64})
@@ -324,6 +335,9 @@ func TestVerifC25Grid(t *testing.T) {
 					// the level-overflow edge for this (rate, residue, units)
 					q := (rate + residue) / u
 					levels = append(levels, math.MaxUint64-q, math.MaxUint64-q+1, math.MaxUint64-q-1)
+				}
+				if w.stop.Load() {
+					return
 				}
 				for _, level := range c25Dedup(levels) {
 					for _, pool := range pools {
@@ -377,8 +391,8 @@ func TestVerifC25Random(t *testing.T) {
 	const chunk = 1000
 	c25Run(c, (n+chunk-1)/chunk, &stop, func(w *c25Worker, ch int) {
 		r := c.Rand(25, uint64(ch))
+		var p c25Proto // one (large) parameter struct per chunk, overwritten per case
 		for k := 0; k < chunk && !stop.Load(); k++ {
-			var p c25Proto
 			if r.Chance(1, 3) {
 				p = protos[r.Intn(len(protos))]
 			} else {
@@ -409,7 +423,7 @@ func TestVerifC25Random(t *testing.T) {
 			if r.Bool() {
 				in.State.RecalcRound = rnd + 1 + uint64(r.Intn(1000))
 			}
-			w.check(p, in)
+			w.check(&p, in)
 		}
 	})
 	c.Require("identity_cases", 50_000)
@@ -465,7 +479,7 @@ func TestVerifC25Chain(t *testing.T) {
 				w.counters["chain_protocol_switches"]++
 			}
 			in := c25Case{State: st, Round: start + uint64(i), Pool: pool, Units: units}
-			res, dist, eff, ok := w.check(p, in)
+			res, dist, eff, ok := w.check(&p, in)
 			if !ok {
 				return
 			}
@@ -477,14 +491,14 @@ func TestVerifC25Chain(t *testing.T) {
 			// debit the pool as the evaluator does
 			if dist.Cmp(c25B(pool)) > 0 {
 				if strict {
-					w.fail("chain-pool-overdrawn", p, in, res, fmt.Sprintf("round %d of chain %d distributes %v, more than the pool balance", i, ci, dist))
+					w.fail("chain-pool-overdrawn", &p, in, res, fmt.Sprintf("round %d of chain %d distributes %v, more than the pool balance", i, ci, dist))
 				}
 				w.counters["chain_legacy_pool_exhausted"]++
 				return // legacy protocols could overspend (the reason for the two fixes); the evaluator rejects the block
 			}
 			pool -= dist.Uint64()
 			if strict && pool < p.Params.MinBalance {
-				w.fail("chain-pool-below-minimum", p, in, res, fmt.Sprintf("round %d of chain %d leaves the pool at %d, below its minimum balance", i, ci, pool))
+				w.fail("chain-pool-below-minimum", &p, in, res, fmt.Sprintf("round %d of chain %d leaves the pool at %d, below its minimum balance", i, ci, pool))
 				return
 			}
 			if strict {
